@@ -102,6 +102,8 @@ pub struct Stats {
     pub receivers: usize,
     /// Commands held in the collector's scratch vectors between cycles.
     pub scratch_len: usize,
+    /// Span sets kept for one more cycle because their trace is not known yet (cancelable only).
+    pub held_span_sets: usize,
 }
 
 /// Runs one collector cycle on the calling thread (what `flush()` does on a helper thread).
